@@ -1954,7 +1954,16 @@ fn find_nsec_covering_record<'a>(
 
         test_name > nsec_name
             && (test_name < next_domain_name || Some(next_domain_name) == soa_name)
+            // RFC 6840 4.1: an ancestor delegation or DNAME NSEC says nothing about names below its owner
+            && !(nsec_name.zone_of(test_name)
+                && (is_ancestor_delegation(nsec_data)
+                    || nsec_data.type_set().contains(RecordType::Unknown(39))))
     })
+}
+
+/// An NSEC from the parent side of a zone cut: NS bit set, SOA bit clear (RFC 6840 4.1).
+fn is_ancestor_delegation(nsec: &NSEC) -> bool {
+    nsec.type_set().contains(RecordType::NS) && !nsec.type_set().contains(RecordType::SOA)
 }
 
 /// Logs a debug message and yields a Proof type for return
